@@ -51,6 +51,12 @@ def run_behaviour(bid, beh, seed, observe=None, expose=None):
         objs[int(o)] = ro
         execute.completed_of(ro)          # the flag is read from the start: it must follow later merges
     live = {}     # step index -> (message object, its serialisation right after parsing)
+    if observe is not None:
+        for o in sorted(objs):          # observe the initial state too: later results must not be remembered from here
+            oe = base_event("%s.0.o%d" % (bid, o), o, "observe")
+            oe["pre"] = oe["post"] = project.rename(project.project_ro(objs[o]), table)
+            oe["obs"] = observe(objs[o])
+            events.append(oe)
 
     def snap(o):
         return project.rename(project.project_ro(objs[o]), table)
